@@ -471,6 +471,17 @@ def run(seed, tier):
     pt_levels_check(rng, out, 24 if thorough else 6)
     # the q of the ratio is the law of the jump: a bounded eigenvector jump draws its direction once
     dens.forced_redraw_block(rng, out, 40 if thorough else 8)
+    # steps of transdimensional chains (births and deaths of components): the recorded acceptance probability against the exact ratio with
+    # independently computed birth, index-jump and in-model densities - C11's oracle, here as part of "every chain step"
+    if len(out.violations) < 4:
+        from . import c11 as _c11
+        td = _c11.run(seed, 'quick', pid='C01td')          # (its own case files: C11 may be running at the same time)
+        out.evaluations += td.evaluations
+        out.count('transdimensional_steps', td.evaluations)
+        for v in td.violations[:2]:
+            out.violations.append(dict(what='transdimensional chain: ' + str(v.get('what')), replay=v.get('replay')))
+        for cfl in td.corr_failures[:3]:
+            out.corr_failures.append(dict(cfl, note='transdimensional chain: ' + str(cfl.get('note'))))
     failing = core.run_coq_cases('C01', HEADER, terms, per_file=500)
     codes = {1: 'acceptance differs', 2: 'ratio differs', 3: 'uniform consumption differs', 4: 'NaN handling differs'}
     for f in failing[:10]:
